@@ -236,6 +236,24 @@ pub fn gen(out: &mut Out, thorough: bool, seed: u64) {
     ];
     let mut ms = Vec::new();
     for s in json_seeds { mutants(&mut rng, s.as_bytes(), &mut ms); }
+    // every pair and triple of \u escapes over the classes {BMP, high surrogate, low surrogate, boundary values}, in strings and keys
+    {
+        const U: &[&str] = &["0041", "d7ff", "d800", "dbff", "dc00", "dfff", "e000", "ffff", "DC00", "D83D", "de00"];
+        for a in U {
+            for b in U {
+                ms.push(format!("\"\\u{}\\u{}\"", a, b).into_bytes());
+                ms.push(format!("{{\"\\u{}\\u{}\":1}}", a, b).into_bytes());
+                ms.push(format!("\"\\u{}x\\u{}\"", a, b).into_bytes());
+                for c in ["d800", "dc00", "0041"] {
+                    ms.push(format!("\"\\u{}\\u{}\\u{}\"", a, b, c).into_bytes());
+                }
+            }
+            ms.push(format!("\"\\u{}\"", a).into_bytes());
+            ms.push(format!("\"\\u{}", a).into_bytes());
+            ms.push(format!("\"\\u{}\\u", a).into_bytes());
+            ms.push(format!("\"\\u{}\\", a).into_bytes());
+        }
+    }
     for d in [10usize, 255, 256, 257, 1000, 100_000, 1_000_000] {
         ms.push("[".repeat(d).into_bytes());
         ms.push(format!("{}1{}", "[".repeat(d), "]".repeat(d)).into_bytes());
